@@ -63,6 +63,18 @@ CLAIMED = {
    note="Trusted: Coq kernel; hand model; PyO3 conversions exercised only by the API-level run; f64 rounding (powi, parse::<f64>) not modelled (partial). No axioms.",
    technique="Coq proof over an inductive relation of legal encodings; differential run vs Rust and vs the real SnmpSession",
    ref="5 C02"),
+ "C01": dict(
+   text="Coq theorems C01_*_total: for every octet string, no decoder of the receive path (header, every value type, relative-OID "
+        "normalisation, PDUs, v1/v2c/v3 messages, USM parameters, scoped PDU, msgData) reaches a Rust panic (the model returns an explicit Panic "
+        "exactly where the Rust would: unchecked index, slice, clone_from_slice, division by zero, todo!()), the varbind loop terminates, and "
+        "every error maps to a documented exception class through the generated error map (C01_error_classes).  Extracted decoders vs the real "
+        "ones exhaustively on all inputs of <= 2 octets, on ~25k mutated messages and on privacy-decrypt inputs (debug+release); the real "
+        "SnmpSession in 6 security configurations x {get, get_many, getnext, getbulk, refresh} against replies with one defect.",
+   note="Trusted: Coq kernel; hand model tied by differential execution; PyO3 glue and the socket layer are exercised only by the API run. "
+        "'touches no memory outside the received bytes' is the absence of out-of-range indexing in safe Rust (modelled as Panic); the unsafe "
+        "buffer code is C17. The five crashing inputs of the pinned commit were repaired by fix: commits (known_findings.json). No axioms.",
+   technique="Coq totality proofs by induction on the octet list over a model with explicit Panic; exhaustive small-input differential run; API fault run",
+   ref="5 C01"),
 }
 
 PENDING = "check not built yet in this round (see DESIGN.md section 7 for the order of work)"
